@@ -38,9 +38,9 @@ Definition panic_sites : list str := [(s "/internal/cmd/runner|*Printer.EndInden
   (s "/internal/pkg/resolver|ServiceResolver.ResolveArg|ff9982620efa");
   (s "/internal/pkg/resolver|TaggedResolver.ResolveArg|ff9982620efa");
   (s "/internal/pkg/resolver|ValueResolver.ResolveArg|0272521dd891");
+  (s "/internal/pkg/token|*Chunker.Chunks|34bcdf10dba7");
   (s "/internal/pkg/token|*FactoryFunction.Create|4d9fb4aa67f7");
   (s "/internal/pkg/token|*Tokenizer.Tokenize|4341d3825c04");
   (s "/internal/pkg/token|*Tokenizer.Tokenize|c12ef6ccb5da");
   (s "/internal/pkg/token|FactoryString.Create|4396f8092bdc");
-  (s "/internal/pkg/token|toExpr|b8177dfc87ba");
-  (s "/internal/pkg/token|toExpr|d12aafa24b73")].
+  (s "/internal/pkg/token|toExpr|81449d667c36")].
